@@ -16,22 +16,43 @@ type c15Role struct {
 	forbid60000 bool // port 60000 is rejected
 	parse       func(string) (netip.AddrPort, error)
 	format      func(netip.AddrPort) string
+	set         func(netip.AddrPort, string) (netip.AddrPort, error) // Set on a variable that already holds an address
 }
 
 func c15Roles() []c15Role {
 	return []c15Role{
 		{"bind", 0, false, true,
 			func(s string) (netip.AddrPort, error) { a, err := ParseBindAddr(s); return a.AddrPort, err },
-			func(a netip.AddrPort) string { return BindAddr{a}.String() }},
+			func(a netip.AddrPort) string { return BindAddr{a}.String() },
+			func(old netip.AddrPort, s string) (netip.AddrPort, error) {
+				x := BindAddr{old}
+				err := x.Set(s)
+				return x.AddrPort, err
+			}},
 		{"broadcast", 60000, true, false,
 			func(s string) (netip.AddrPort, error) { a, err := ParseBroadcastAddr(s); return a.AddrPort, err },
-			func(a netip.AddrPort) string { return BroadcastAddr{a}.String() }},
+			func(a netip.AddrPort) string { return BroadcastAddr{a}.String() },
+			func(old netip.AddrPort, s string) (netip.AddrPort, error) {
+				x := BroadcastAddr{old}
+				err := x.Set(s)
+				return x.AddrPort, err
+			}},
 		{"listen", -1, true, true,
 			func(s string) (netip.AddrPort, error) { a, err := ParseListenAddr(s); return a.AddrPort, err },
-			func(a netip.AddrPort) string { return ListenAddr{a}.String() }},
+			func(a netip.AddrPort) string { return ListenAddr{a}.String() },
+			func(old netip.AddrPort, s string) (netip.AddrPort, error) {
+				x := ListenAddr{old}
+				err := x.Set(s)
+				return x.AddrPort, err
+			}},
 		{"controller", 60000, true, false,
 			func(s string) (netip.AddrPort, error) { a, err := ParseControllerAddr(s); return a.AddrPort, err },
-			func(a netip.AddrPort) string { return ControllerAddr{a}.String() }},
+			func(a netip.AddrPort) string { return ControllerAddr{a}.String() },
+			func(old netip.AddrPort, s string) (netip.AddrPort, error) {
+				x := ControllerAddr{old}
+				err := x.Set(s)
+				return x.AddrPort, err
+			}},
 	}
 }
 
@@ -90,6 +111,16 @@ func c15Check(r c15Role, t c15Text) {
 	}
 	reject := port < 0 || (r.forbid0 && port == 0 && t.hasPort) || (r.forbid60000 && port == 60000 && t.hasPort)
 	verifObserve(r.name+".err", err != nil)
+	// Set on a variable that already holds an address - possibly the same IP address with another port
+	old := netip.AddrPortFrom(netip.AddrFrom4([4]byte{nondetU8("old.a"), nondetU8("old.b"), nondetU8("old.c"), nondetU8("old.d")}), nondetU16("old.port"))
+	if nondetBool("old.same.ip") {
+		old = netip.AddrPortFrom(netip.AddrFrom4([4]byte{byte(t.octets[0]), byte(t.octets[1]), byte(t.octets[2]), byte(t.octets[3])}), old.Port())
+	}
+	stored, serr := r.set(old, t.s)
+	verifAssert((serr != nil) == (err != nil), r.name+": Set accepts exactly the strings the parser accepts")
+	if err == nil && serr == nil {
+		verifAssert(stored == got, r.name+": Set stores exactly the parsed address and port, whatever the variable held before")
+	}
 	if reject {
 		verifAssert(err != nil, r.name+": an address that violates the role's port rule is rejected")
 		return
